@@ -12,6 +12,10 @@ CHECKS = {
    text="ASan+UBSan builds of the working tree (thread-safe and not) are driven, one process per case, with grammar-generated and byte-mutated snoopy.ini files crossed with exec shapes and hostile environments (environ==NULL, thousands of variables, 1 MiB values) through the production entry points; the same build's static archive is linked into an instrumented harness that calls every data source / filter / output / helper with exact-size heap buffers from 257 bytes to 1 MiB+1 under hostile process states. Any sanitizer report, fatal signal, watchdog firing, missing real exec or unterminated result buffer is a violation.",
    note="Red-zone sanitizers see adjacent overflows and UB on the paths the workload reaches only; a clean run is not memory safety. libFuzzer arm not built."),
 
+ "C03": dict(level="fault_enumeration", design="3/C03", technique="strace syscall fault injection at every I/O syscall between wrapper entry and real exec + natural hostile sink states",
+   text="For each scenario (every output x all-sources / single-source / default formats x filter chains) a baseline trace yields the ordered syscalls between the driver's BEGIN and REAL markers; every I/O syscall position is failed with errnos from a per-syscall table (one rotating errno per position in quick, every errno in thorough), plus persistent faults (the syscall keeps failing from position k on) and sampled two-fault runs; a run counts only if (INJECTED) shows inside the window. Natural sink states without injection: absent/dir/unwritable/ENOSPC file targets, absent socket, datagram socket with full unread queue (socket and devlog), stream listener, closed and reader-less stdout/stderr, no controlling tty, unreadable config, deleted cwd. Oracle from the trace: real exec reached exactly once, scripted ret/errno delivered, no signal, bounded window, no watchdog firing.",
+   note="strace's injection replaces the syscall by the error (no side effects of the real call); timing is never a verdict; allocation failure (mmap/brk) is outside the domain; FIFO-as-log-file and TOSTOP background-tty scenarios are not judged."),
+
  "C04": dict(level="exploration", design="3/C04", technique="runtime monitoring: driver-owned sinks sampled at the real-exec instant + format/frame oracle",
    text="All sinks a record could reach (log files, stdout/stderr pipes, pty, datagram sockets for socket: and redirected /dev/log) are owned by the driver and sampled at call begin, at the instant the recording exec is entered and after return; the oracle demands exactly M+newline / one datagram M / one datagram <pri>ident[pid]: M at the configured sink only, already at the real-exec instant, nothing later, and nothing at all for dropped or empty messages; successful real execs are checked from the parent side.",
    note="Message carried in argv through %{cmdline}; /dev/log redirected by an interposed connect(); OS datagram size limit and pty capacity bound the sizes used for those sinks."),
